@@ -169,8 +169,29 @@ func runC07(ctx *core.Ctx, idx int) *core.Result {
 		}
 		res.Ob("hostile-header-files", 1)
 	}
+	longLine := false
+	if idx%5 == 1 && !hostile && len(files) > 0 {
+		// a line of 4-60 KiB (an embedded blob, a generated table) in front of the code, LF line ends: below the 64 KiB at
+		// which --diff gives up (known finding of C12), above the size of common line buffers. Whatever splits the text
+		// into lines must not cut it: the content a diff implies has to parse
+		longLine = true
+		k := r.Intn(len(files))
+		n := []int{4097, 5000, 8193, 20000, 40000, 60000}[r.Intn(6)]
+		blob := "func blobLine" + fmt.Sprint(k) + "() string {\n\treturn \"" + strings.Repeat("x", n) + "\"\n}\n\n"
+		if r.Intn(2) == 0 {
+			blob = "// " + strings.Repeat("y", n) + "\n\n" + blob
+		}
+		// (not for the files that are unparseable on purpose)
+		if ns := strings.Replace(files[k].src, "package p\n", "package p\n\n"+blob, 1); gen.Parses(ns) {
+			files[k].src = ns
+			res.Ob("long-line-files", 1)
+		} else {
+			longLine = false
+		}
+	}
 	if idx%7 == 6 {
 		hostile = false
+		longLine = false
 		// a target whose name is so long that no temporary file can be created next to it, and a rewrite that
 		// makes it shorter: whatever the write path falls back to, what ends up on disk has to parse
 		pt, class, mode = "@@\nvar x expression\n@@\n-shrinkThisLongCall(x)\n+s(x)\n", "long-name-shrinking-rewrite", "inplace"
@@ -287,6 +308,11 @@ func runC07(ctx *core.Ctx, idx int) *core.Result {
 		for _, ch := range splitDiffs(stdout) {
 			one, err := applyUnifiedDiffs(ch.text, orig)
 			if err != nil {
+				if longLine {
+					// every line is shorter than 64 KiB and ends in LF: none of the known limits of --diff applies
+					rep["diff.txt"] = ch.text
+					fail("diff-implies-no-content/long-line", fmt.Sprintf("the diff printed for a file with a line of 4-60 KiB does not apply to it: %v", err))
+				}
 				res.Inconcl++
 				continue
 			}
